@@ -57,6 +57,35 @@ def mk_seed(sd):
     raise ValueError(k)
 
 
+def run_cycle(case):
+    """(B) for theorem `period`: the stream of a seed must not return to its start before 2^30 draws.
+    Observed through the public API only: the uniforms after `steps` draws are compared with the first ones
+    (the uniform IS the state of this generator, so one equal pair at the same phase means the stream repeats)."""
+    import coba.random as cr
+    c = case["cycle"]
+    r = cr.CobaRandom(c["seed"])
+    first = [r.random() for _ in range(4)]
+    left = c["steps"] - 4
+    while left > 0:
+        n = min(left, 1 << 20)
+        r.randoms(n)
+        left -= n
+    again = [r.random() for _ in range(4)]
+    return {"first": [q(x) for x in first], "again": [q(x) for x in again], "repeats": first == again}
+
+
+def affine_period(a, c, m, s0, cap):
+    """smallest P = 2^j <= cap with x_P = x_0 for x -> (a*x+c) % m (m a power of two), by squaring the affine map; None if none"""
+    A_, C_ = a % m, c % m
+    P = 1
+    while P <= cap:
+        if (A_ * s0 + C_) % m == s0 % m:
+            return P
+        A_, C_ = (A_ * A_) % m, (A_ * C_ + C_) % m
+        P *= 2
+    return None
+
+
 def seed_for_model(sd):
     v = mk_seed(sd)
     if isinstance(v, int) or (isinstance(v, float) and v.is_integer()):
@@ -227,6 +256,7 @@ class C05(Property):
         path = os.path.join(lean.LEAN_DIR, "CobaVerif", "Generated", "LcgConsts.lean")
         if m:
             a, c, base, ex = (int(x) for x in m.groups())
+            self._extracted = (a, c, base ** ex)
             body = ("-- GENERATED by harness/props/c05.py from coba/random.py on every run; do not edit.\n"
                     "namespace Coba.Generated\ndef lcgA : Nat := %d\ndef lcgC : Nat := %d\ndef lcgM : Nat := %d\n"
                     "def lcgExtracted : Bool := true\nend Coba.Generated\n" % (a, c, base ** ex))
@@ -385,6 +415,20 @@ class C05(Property):
         return case
 
     def search(self, rng, tier):
+        ext = getattr(self, "_extracted", None)
+        if ext and ext != (A, C, M) and not getattr(self, "_cycle_tried", False):
+            # the source's LCG constants are not the proved ones: compute the period they give and replay it on the real code
+            self._cycle_tried = True
+            a, c, m = ext
+            cap = (1 << 29) if tier == "thorough" else (1 << 27)
+            if m & (m - 1) == 0:
+                best = None
+                for sd in list(range(64)) + [1 << k for k in range(6, 30)]:
+                    P = affine_period(a, c, m, sd % m, cap)
+                    if P is not None and P < (1 << 30) and (best is None or P < best[1]):
+                        best = (sd, P)
+                if best:
+                    return {"cycle": {"seed": best[0], "steps": max(best[1], 8)}}
         # boundary-biased: one instance, a boundary seed, short history so the special uniform lands on each method
         k = rng.randint(1, 4)
         t = rng.choice([0, M - 1])
@@ -397,6 +441,10 @@ class C05(Property):
         return {"seeds": seeds, "hist": hist}
 
     def corpus(self):
+        cyc = [{"cycle": {"seed": sd, "steps": 1 << k}} for sd, k in ((0, 4), (1, 10), (7, 16), (482549499, 18), (123456789, 20))]
+        return cyc + self.corpus_histories()
+
+    def corpus_histories(self):
         s0 = seed_for(1, 0)
         smax = seed_for(1, M - 1)
         cs = []
@@ -430,6 +478,20 @@ class C05(Property):
     # ---- evaluation
     def evaluate(self, case, driver):
         fails, tags = [], []
+        if "cycle" in case:
+            o = run_cycle(case)
+            c = case["cycle"]
+            tags.append("cycle:2^%d" % (c["steps"].bit_length() - 1) if c["steps"] & (c["steps"] - 1) == 0 else "cycle:%d" % c["steps"])
+            if o["repeats"] and c["steps"] % M != 0:
+                fails.append(F("B", "CobaRandom(%d): after %d draws (< 2^30) the stream is back at its start and repeats: draws %d.. equal draws 1.. (%s)"
+                               % (c["seed"], c["steps"], c["steps"] + 1, json.dumps(o["first"])), "stream-short-cycle"))
+            # (A)/(C): the model's closed form says where the stream is after `steps` draws
+            if driver is not None:
+                ans = driver.ask({"seeds": [{"int": c["seed"]}], "hist": [{"i": 0, "op": "random", "lo": [0, 1], "hi": [1, 1]}] * 4})
+                mo = [x[1].get("rat") for x in ans["model"]]
+                if mo != o["first"]:
+                    fails.append(F("A", "first four uniforms of seed %d: implementation %s, model %s" % (c["seed"], o["first"], mo), "A:cycle-first"))
+            return {"fails": fails, "nontrivial": True, "tags": tags, "impl": o, "model": None}
         impl = run_history(case)
         hist = case["hist"]
         n_values = 0
@@ -600,6 +662,8 @@ class C05(Property):
         return "value differs (impl %s, model %s)" % (a, b)
 
     def shrink(self, case):
+        if "cycle" in case:
+            return
         hist = case["hist"]
         for k in range(len(hist)):
             c = dict(case, hist=hist[:k] + hist[k + 1:])
@@ -617,6 +681,10 @@ class C05(Property):
                 yield dict(case, hist=hist[:k] + [dict(h, n=h["n"] - 1)] + hist[k + 1:])
 
     def snippet(self, case):
+        if "cycle" in case:
+            return ("import sys; sys.path[:0]=['/repo']\nfrom coba.random import CobaRandom\nr=CobaRandom(%d); a=[r.random() for _ in range(4)]\n"
+                    "left=%d-4\nwhile left>0:\n    n=min(left,1<<20); r.randoms(n); left-=n\nb=[r.random() for _ in range(4)]\nprint(a==b, a, b)  # True: the stream repeats after %d draws\n"
+                    % (case["cycle"]["seed"], case["cycle"]["steps"], case["cycle"]["steps"]))
         return ("import sys; sys.path[:0]=['/repo','/verif/harness']\nfrom props.c05 import run_history\nimport json\n"
                 "case = json.loads(%r)\nprint(run_history(case))\n" % json.dumps(case))
 
